@@ -86,3 +86,59 @@ func guard(f func() interface{}) (res interface{}) {
 }
 
 func i32p(v int32) *int32 { return &v }
+
+// ---- call-level faults (C06): the same action once undisturbed and once per chosen call index with that call failing
+
+type faultRun struct {
+	Err, Requeue bool
+	Calls        int
+	Hit          string
+	Writes       []string
+}
+
+func writesOf(l *LogClient) []string {
+	var ws []string
+	for _, r := range l.Log {
+		if !r.Err {
+			ws = append(ws, r.Verb+" "+r.Kind+" "+r.Key)
+		}
+	}
+	return ws
+}
+
+// faultSweep emits one "fault" line per chosen k: {in, k} -> {err, requeue, hit, writes, baseWrites, calls}.
+func faultSweep(c *Ctx, in interface{}, all bool, run func(failN int) faultRun) {
+	var base faultRun
+	if r := guard(func() interface{} { base = run(0); return nil }); r != nil {
+		return // the undisturbed action panics: the suite's main op reports that
+	}
+	if base.Calls == 0 || base.Err {
+		return
+	}
+	ks := []int{}
+	if all || base.Calls <= 3 {
+		for k := 1; k <= base.Calls; k++ {
+			ks = append(ks, k)
+		}
+	} else {
+		ks = append(ks, 1+c.Rng.Intn(base.Calls), 1+c.Rng.Intn(base.Calls), base.Calls)
+	}
+	for _, k := range ks {
+		faultOne(c, in, k, base, run)
+	}
+}
+
+func faultOne(c *Ctx, in interface{}, k int, base faultRun, run func(failN int) faultRun) {
+	impl := guard(func() interface{} {
+		r := run(k)
+		return J{"err": r.Err, "requeue": r.Requeue, "hit": r.Hit, "writes": r.Writes, "baseWrites": base.Writes, "calls": base.Calls}
+	})
+	c.Emit("fault", J{"in": in, "k": k}, impl)
+}
+
+// faultReplay re-runs one stored "fault" line.
+func faultReplay(c *Ctx, in interface{}, k int, run func(failN int) faultRun) {
+	var base faultRun
+	_ = guard(func() interface{} { base = run(0); return nil })
+	faultOne(c, in, k, base, run)
+}
